@@ -89,7 +89,8 @@ def run_case(case):
     pname, lang, files, seed, history, location, p2, other = case
     root = tempfile.mkdtemp(prefix="c14_", dir=common.scratch_root())
     try:
-        wsdir = os.path.join(root, "w" if location == "short" else "workspace_with_a_much_longer_directory_name/nested/deeper")
+        wsdir = os.path.join(root, {"short": "w", "long": "workspace_with_a_much_longer_directory_name/nested/deeper",
+                                    "under-src": "src/analysis/ws", "under-externs": "externs/ws"}[location])
         os.makedirs(wsdir, exist_ok=True)
         if history == "after-other":
             oroot = os.path.join(root, "otherproj")
@@ -133,6 +134,8 @@ def main():
                 cases.append((pn, lang, files, seed, "after-other", "short", p2, other))
                 cases.append((pn, lang, files, seed, "rerun", "short", p2, other))
             cases.append((pn, lang, files, 0, "fresh", "long", p2, other))
+            cases.append((pn, lang, files, 0, "fresh", "under-src", p2, other))
+            cases.append((pn, lang, files, seeds[1], "fresh", "under-externs", p2, other))
             cases.append((pn, lang, files, seeds[2], "after-other", "long", p2, other))
     results = []
     with concurrent.futures.ThreadPoolExecutor(16) as ex:
@@ -141,14 +144,17 @@ def main():
     base = {}
     for r in results:
         pn, seed, hist, loc, p2 = r["case"]
-        if seed == 0 and hist == "fresh" and loc == "short":
-            base[(pn, p2)] = r
+        if hist == "fresh" and loc == "short":
+            base[(pn, p2, seed)] = r
     compared = 0
     files_total = 0
     byte_identical_files = path_only_files = 0
     for r in results:
         pn, seed, hist, loc, p2 = r["case"]
-        b = base[(pn, p2)]
+        if hist == "fresh" and loc == "short":
+            b = base[(pn, p2, 0)]           # seed axis: against the seed-0 run
+        else:
+            b = base.get((pn, p2, seed)) or base[(pn, p2, 0)]     # history / location axes: against the same-seed fresh run
         if r is b:
             files_total += len(r["raw"])
             if r["traceback"] or r["rc"] != 0:
